@@ -9,6 +9,7 @@ def run(ctx):
     parts = daemon.run_mode(ctx, b, "c10", 20000 if q else 2000000)
     agg, viol, samples, incon = daemon.merge(parts, sum_keys=("evaluations", "slivers"))
     work = max([p["work_items"] for p in parts if p] or [0])
+    replayed = sum(p.get("replayed_reports", 0) for p in parts if p)
     ctx.log("c10: %d of %d work items, %d cells, %d in the truncation sliver" % (agg["evaluations"], work, len(agg["cells"]), agg["slivers"]))
     inconclusive = incon
     leaps = sum(v for k, v in agg["cells"].items() if k.startswith("all-leaps|"))
@@ -20,7 +21,7 @@ def run(ctx):
         "evaluations": agg["evaluations"],
         "distinct_nontrivial": work,
         "rule": "each evaluation: a daemon with a measurement on record is brought to one FSM state (Unknown / Synchronized / FreeRunning) by real messages, then one report (leap status, reference-time age under a virtual SystemTime, update interval) is processed by the real pipeline and the published status read from the sink; "
-                "enumerated: all 65536 leap-status values (fresh), every (leap in {0,1,2,3,4,7,255,65535}) x (9 intervals) x (ages -1 s, -1 ns, 0, 1 ns, floor-threshold -1/0/+1 ns, exact-threshold -1/0/+1 ns, +1 s, 1 year) x (3 FSM states); plus random reports; "
+                "enumerated: all 65536 leap-status values (fresh), every (leap in {0,1,2,3,4,7,255,65535}) x (9 intervals) x (ages -1 s, -1 ns, 0, 1 ns, floor-threshold -1/0/+1 ns, exact-threshold -1/0/+1 ns, +1 s, 1 year) x (3 FSM states); plus random reports; plus the bit-identical report processed a second time after virtual time has moved on (fresh then stale, fresh then still fresh); "
                 "oracle: the statement's table in exact integer arithmetic on the decoded interval; in the sliver floor(8*interval) s < age <= 8*interval either answer is accepted and counted; distinct_nontrivial = enumerated + random work items (all distinct by construction)",
         "samples": samples[:3],
         "exhaustive": True,
